@@ -52,8 +52,8 @@ def main():
         if rc != 0:
             summary[pid] = {"rc": rc, "reports": hits[:8]}
             print(f"{pid} rc={rc}")
-            for h in hits[:4]:
-                print("    " + h[:260])
+            for h in hits[:int(os.environ.get("SEED_EVAL_LINES", "4"))]:
+                print("    " + h[:int(os.environ.get("SEED_EVAL_WIDTH", "260"))])
     if not summary:
         print("ALL SILENT")
     if out:
